@@ -5,7 +5,7 @@ from harness import cxx_run as X
 
 class C09(ProgProp):
     id = 'C09'
-    theorems = ['C09.create_succeeds_iff_no_facilities', 'C09.import_succeeds_iff_both_facilities', 'C09.create_owns_fresh_facilities', 'C09.import_uses_user_facilities', 'C09.failure_before_component', 'C09.locator_accessor_iff_create']
+    theorems = ['C09.createConstructor_mil', 'C09.milFacts_of_mil', 'C09.create_succeeds_iff_no_facilities', 'C09.import_succeeds_iff_both_facilities', 'C09.create_owns_fresh_facilities', 'C09.import_uses_user_facilities', 'C09.failure_before_component', 'C09.no_check_no_failure', 'C09.locator_accessor_iff_create', 'C09.build_milFacts', 'C09.build_create', 'C09.build_import']
     proof_modules = ['DznProofs.C09']
     scripts_per_program = 1
     level_rule = ('compiled programs x all 2^3 presence combinations (dispatcher, runtime, other service) of the '
